@@ -90,32 +90,46 @@ fn c10_level_distribution_merge_is_sum() {
 
 const IDS: [&str; 2] = ["A1", "B2"];
 
+fn dist_from(c: &[u32; 8]) -> LevelDistribution {
+    let mut d = LevelDistribution::default();
+    d.non_log = c[0] as usize;
+    d.log_fatal = c[1] as usize;
+    d.log_error = c[2] as usize;
+    d.log_warning = c[3] as usize;
+    d.log_info = c[4] as usize;
+    d.log_debug = c[5] as usize;
+    d.log_verbose = c[6] as usize;
+    d.log_invalid = c[7] as usize;
+    d
+}
+
 /// A part's table: 0, 1 or 2 entries with distinct ids in either order
-/// (shape `sh` is enumerated concretely), symbolic counters.
-fn table(sh: u8) -> Vec<(String, LevelDistribution)> {
+/// (shape `sh` is concrete), counters c[k] belong to id IDS[k].
+fn table(sh: u8, c: &[[u32; 8]; 2]) -> Vec<(String, LevelDistribution)> {
     let mut v = Vec::with_capacity(2);
     match sh {
         0 => {}
-        1 => v.push((String::from(IDS[0]), any_dist())),
-        2 => v.push((String::from(IDS[1]), any_dist())),
+        1 => v.push((String::from(IDS[0]), dist_from(&c[0]))),
+        2 => v.push((String::from(IDS[1]), dist_from(&c[1]))),
         3 => {
-            v.push((String::from(IDS[0]), any_dist()));
-            v.push((String::from(IDS[1]), any_dist()));
+            v.push((String::from(IDS[0]), dist_from(&c[0])));
+            v.push((String::from(IDS[1]), dist_from(&c[1])));
         }
         _ => {
-            v.push((String::from(IDS[1]), any_dist()));
-            v.push((String::from(IDS[0]), any_dist()));
+            v.push((String::from(IDS[1]), dist_from(&c[1])));
+            v.push((String::from(IDS[0]), dist_from(&c[0])));
         }
     }
     v
 }
 
-fn lookup(t: &Vec<(String, LevelDistribution)>, id: &str) -> [usize; 8] {
+/// counters of id IDS[k] in table t (zeros if absent); asserts no duplicates
+fn lookup(t: &Vec<(String, LevelDistribution)>, k: usize) -> [usize; 8] {
     let mut out = [0usize; 8];
     let mut hits = 0;
     let mut i = 0;
     while i < t.len() {
-        if t[i].0.as_bytes() == id.as_bytes() {
+        if t[i].0.as_bytes() == IDS[k].as_bytes() {
             out = as_array(&t[i].1);
             hits += 1;
         }
@@ -125,113 +139,122 @@ fn lookup(t: &Vec<(String, LevelDistribution)>, id: &str) -> [usize; 8] {
     out
 }
 
-fn part(sh: u8) -> StatisticInfo {
+fn present(sh: u8, k: usize) -> bool {
+    match sh {
+        0 => false,
+        1 => k == 0,
+        2 => k == 1,
+        _ => true,
+    }
+}
+
+fn info(app: Vec<(String, LevelDistribution)>, ctx: Vec<(String, LevelDistribution)>, ecu: Vec<(String, LevelDistribution)>, nv: bool) -> StatisticInfo {
     let mut s = StatisticInfo::new();
-    s.app_ids = table(sh);
-    s.context_ids = table((sh + 2) % 5);
-    s.ecu_ids = table((sh + 3) % 5);
-    s.contained_non_verbose = kani::any();
+    s.app_ids = app;
+    s.context_ids = ctx;
+    s.ecu_ids = ecu;
+    s.contained_non_verbose = nv;
     s
 }
 
-fn clone_info(s: &StatisticInfo) -> StatisticInfo {
-    let mut c = StatisticInfo::new();
-    c.app_ids = s.app_ids.clone();
-    c.context_ids = s.context_ids.clone();
-    c.ecu_ids = s.ecu_ids.clone();
-    c.contained_non_verbose = s.contained_non_verbose;
-    c
-}
-
-/// merge(a, b) == tally of the concatenation, == merge(b, a) as maps; the
-/// non-verbose flag is the disjunction. Table shapes enumerated (5 x 5).
+/// One id table, two parts with table shapes (sa, sb): a.merge(b) and b.merge(a)
+/// both equal the per-id sum of the two parts (= the tally of the concatenation).
 fn merge_two(sa: u8, sb: u8) {
-    let a = part(sa);
-    let b = part(sb);
-    let mut ab = clone_info(&a);
-    ab.merge(clone_info(&b));
-    let mut ba = clone_info(&b);
-    ba.merge(clone_info(&a));
+    let ca: [[u32; 8]; 2] = kani::any();
+    let cb: [[u32; 8]; 2] = kani::any();
+    let (nva, nvb): (bool, bool) = (kani::any(), kani::any());
+    let mut ab = info(table(sa, &ca), Vec::new(), Vec::new(), nva);
+    ab.merge(info(table(sb, &cb), Vec::new(), Vec::new(), nvb));
+    let mut ba = info(table(sb, &cb), Vec::new(), Vec::new(), nvb);
+    ba.merge(info(table(sa, &ca), Vec::new(), Vec::new(), nva));
     let mut k = 0;
     while k < 2 {
-        let id = IDS[k];
-        let (xa, xb) = (lookup(&a.app_ids, id), lookup(&b.app_ids, id));
-        let (ya, yb) = (lookup(&a.context_ids, id), lookup(&b.context_ids, id));
-        let (za, zb) = (lookup(&a.ecu_ids, id), lookup(&b.ecu_ids, id));
-        let (m1, m2) = (lookup(&ab.app_ids, id), lookup(&ba.app_ids, id));
-        let (n1, n2) = (lookup(&ab.context_ids, id), lookup(&ba.context_ids, id));
-        let (o1, o2) = (lookup(&ab.ecu_ids, id), lookup(&ba.ecu_ids, id));
+        let (m1, m2) = (lookup(&ab.app_ids, k), lookup(&ba.app_ids, k));
         let mut i = 0;
         while i < 8 {
-            assert!(m1[i] == xa[i] + xb[i] && m2[i] == m1[i], "app-id table: merge is not the sum / not commutative");
-            assert!(n1[i] == ya[i] + yb[i] && n2[i] == n1[i], "context-id table: merge is not the sum / not commutative");
-            assert!(o1[i] == za[i] + zb[i] && o2[i] == o1[i], "ecu-id table: merge is not the sum / not commutative");
+            let xa = if present(sa, k) { ca[k][i] as usize } else { 0 };
+            let xb = if present(sb, k) { cb[k][i] as usize } else { 0 };
+            assert!(m1[i] == xa + xb, "merge is not the per-id sum of the parts");
+            assert!(m2[i] == m1[i], "merge is not commutative");
             i += 1;
         }
         k += 1;
     }
-    assert!(ab.contained_non_verbose == (a.contained_non_verbose || b.contained_non_verbose));
-    assert!(ba.contained_non_verbose == ab.contained_non_verbose);
-    assert!(ab.app_ids.len() <= 2 && ab.context_ids.len() <= 2 && ab.ecu_ids.len() <= 2, "merged table has spurious entries");
-    std::mem::forget(a);
-    std::mem::forget(b);
+    let n_ids = (present(sa, 0) || present(sb, 0)) as usize + (present(sa, 1) || present(sb, 1)) as usize;
+    assert!(ab.app_ids.len() == n_ids && ba.app_ids.len() == n_ids, "merged table has missing or spurious entries");
+    assert!(ab.contained_non_verbose == (nva || nvb) && ba.contained_non_verbose == (nva || nvb), "non-verbose flag is not the disjunction");
+    assert!(ab.context_ids.is_empty() && ab.ecu_ids.is_empty());
+    kani::cover!(true, "merged");
     std::mem::forget(ab);
     std::mem::forget(ba);
 }
 
 macro_rules! c10_merge {
-    ($name:ident, $sa:expr, [$($sb:expr),*]) => {
+    ($name:ident, $sa:expr, $sb:expr) => {
         #[kani::proof]
         #[kani::unwind(6)]
         fn $name() {
-            $( merge_two($sa, $sb); )*
-            kani::cover!(true);
+            merge_two($sa, $sb);
         }
     };
 }
-c10_merge!(c10_merge_two_parts_a0, 0, [0, 1, 2, 3, 4]);
-c10_merge!(c10_merge_two_parts_a1, 1, [0, 1, 2, 3, 4]);
-c10_merge!(c10_merge_two_parts_a2, 2, [0, 1, 2, 3, 4]);
-c10_merge!(c10_merge_two_parts_a3, 3, [0, 1, 2, 3, 4]);
-c10_merge!(c10_merge_two_parts_a4, 4, [0, 1, 2, 3, 4]);
+c10_merge!(c10_merge_34, 3, 4);
+c10_merge!(c10_merge_12, 1, 2);
+c10_merge!(c10_merge_11, 1, 1);
+c10_merge!(c10_merge_03, 0, 3);
+c10_merge!(c10_merge_30, 3, 0);
+c10_merge!(c10_merge_24, 2, 4);
+c10_merge!(c10_merge_41, 4, 1);
+c10_merge!(c10_merge_00, 0, 0);
 
-/// Associativity on three parts: (a+b)+c == a+(b+c) as maps (one table).
+/// The three tables are merged independently (no table is skipped or mixed up)
+/// even when a part has only ECU entries (messages without extended header).
+#[kani::proof]
+#[kani::unwind(6)]
+fn c10_merge_tables_independent() {
+    let c: [[u32; 8]; 2] = kani::any();
+    let d: [[u32; 8]; 2] = kani::any();
+    let mut a = info(table(1, &c), Vec::new(), table(2, &c), false);
+    a.merge(info(Vec::new(), Vec::new(), table(3, &d), true));
+    let (app0, ecu0, ecu1) = (lookup(&a.app_ids, 0), lookup(&a.ecu_ids, 0), lookup(&a.ecu_ids, 1));
+    let mut i = 0;
+    while i < 8 {
+        assert!(app0[i] == c[0][i] as usize, "app table changed by a part without app ids");
+        assert!(ecu0[i] == d[0][i] as usize, "ecu entry of the second part lost");
+        assert!(ecu1[i] == c[1][i] as usize + d[1][i] as usize, "ecu counters not summed");
+        i += 1;
+    }
+    assert!(a.app_ids.len() == 1 && a.context_ids.is_empty() && a.ecu_ids.len() == 2);
+    assert!(a.contained_non_verbose, "non-verbose flag of an ecu-only part lost");
+    kani::cover!(true);
+    std::mem::forget(a);
+}
+
+/// Associativity on three parts (one table): (a+b)+c == a+(b+c) == sum.
 #[kani::proof]
 #[kani::unwind(6)]
 fn c10_merge_three_parts_associative() {
-    let mut sa = 1u8;
-    while sa <= 4 {
-        let a = part(sa);
-        let b = part(4);
-        let c = part(3);
-        let mut l = clone_info(&a);
-        l.merge(clone_info(&b));
-        l.merge(clone_info(&c));
-        let mut bc = clone_info(&b);
-        bc.merge(clone_info(&c));
-        let mut r = clone_info(&a);
-        r.merge(bc);
-        let mut k = 0;
-        while k < 2 {
-            let id = IDS[k];
-            let (x, y) = (lookup(&l.app_ids, id), lookup(&r.app_ids, id));
-            let (p, q) = (lookup(&l.ecu_ids, id), lookup(&r.ecu_ids, id));
-            let mut i = 0;
-            while i < 8 {
-                assert!(x[i] == y[i] && p[i] == q[i], "merge is not associative");
-                i += 1;
-            }
-            k += 1;
-        }
-        assert!(l.contained_non_verbose == r.contained_non_verbose);
-        std::mem::forget(a);
-        std::mem::forget(b);
-        std::mem::forget(c);
-        std::mem::forget(l);
-        std::mem::forget(r);
-        sa += 3;
+    let ca: [[u32; 8]; 2] = kani::any();
+    let cb: [[u32; 8]; 2] = kani::any();
+    let cc: [[u32; 8]; 2] = kani::any();
+    let mut l = info(table(2, &ca), Vec::new(), Vec::new(), false);
+    l.merge(info(table(4, &cb), Vec::new(), Vec::new(), false));
+    l.merge(info(table(1, &cc), Vec::new(), Vec::new(), true));
+    let mut bc = info(table(4, &cb), Vec::new(), Vec::new(), false);
+    bc.merge(info(table(1, &cc), Vec::new(), Vec::new(), true));
+    let mut r = info(table(2, &ca), Vec::new(), Vec::new(), false);
+    r.merge(bc);
+    let (l0, l1, r0, r1) = (lookup(&l.app_ids, 0), lookup(&l.app_ids, 1), lookup(&r.app_ids, 0), lookup(&r.app_ids, 1));
+    let mut i = 0;
+    while i < 8 {
+        assert!(l0[i] == cb[0][i] as usize + cc[0][i] as usize && r0[i] == l0[i], "merge is not associative / not the sum");
+        assert!(l1[i] == ca[1][i] as usize + cb[1][i] as usize && r1[i] == l1[i], "merge is not associative / not the sum");
+        i += 1;
     }
+    assert!(l.contained_non_verbose && r.contained_non_verbose);
     kani::cover!(true);
+    std::mem::forget(l);
+    std::mem::forget(r);
 }
 
 // ---- scan loop ------------------------------------------------------------
